@@ -65,10 +65,24 @@ def run_case(case, ctx):
     kind = gen.choice(rs, KINDS)
     eps = tol.eps_of(dt)
 
+    # operands of different dtypes (the first operand built is the tensor / first matrix): an integer or real tensor with float or
+    # complex partners must give the promoted result of the index formula, whatever buffer the implementation allocates
+    mix = gen.choice(rs, ["uniform"] * 5 + ["int-first", "real-first", "complex-first"])
+    if mix == "real-first" and np.dtype(dt).kind != "c" or mix == "complex-first" and np.dtype(dt).kind == "c":
+        mix = "uniform"
+    n_built = [0]
+
     def A(shape, dtype=None, k=None):
+        n_built[0] += 1
+        if dtype is None and n_built[0] == 1 and mix != "uniform":
+            if mix == "int-first":
+                return gen.arr(rs, shape, "float64", "int").astype(np.int64)
+            if mix == "real-first":
+                return gen.arr(rs, shape, "float64", k or kind)
+            return gen.arr(rs, shape, "complex128", k or kind)
         return gen.arr(rs, shape, dtype or dt, k or kind)
 
-    desc = {"fn": fn, "dtype": dt, "kind": kind}
+    desc = {"fn": fn, "dtype": dt, "kind": kind, "mix": mix}
     backends = ["core", "einsum"]
     cls = "generic"
     nontrivial = True
@@ -242,15 +256,22 @@ def run_case(case, ctx):
     elif fn == "sample_khatri_rao":
         n = rs.randint(1, 5)
         R = rs.randint(1, 5)
-        mats = [A([rs.randint(1, 5), R]) for _ in range(n)]
+        given = rs.rand() < 0.5
+        # caller-supplied index arrays may have any integer dtype (int8 labels, uint8 ...): the row number in the full product
+        # must not be computed in that dtype; the narrow variants use products of row counts beyond 127 / 255
+        idt = gen.choice(rs, ["int64", "int64", "int32", "int8", "uint8", "int16"]) if given else "int64"
+        if idt in ("int8", "uint8"):
+            n = int(rs.randint(3, 5))
+            mats = [A([rs.randint(4, 8), R]) for _ in range(n)]
+        else:
+            mats = [A([rs.randint(1, 5), R]) for _ in range(n)]
         skip = int(rs.randint(n)) if (n > 1 and rs.rand() < 0.5) else None
         rem = [m for i, m in enumerate(mats) if i != skip]
         ns = int(rs.randint(1, 9))
-        given = rs.rand() < 0.5
-        il = [rs.randint(0, m.shape[0], size=ns) for m in rem] if given else None
+        il = [rs.randint(0, m.shape[0], size=ns).astype(idt) for m in rem] if given else None
         sd = int(rs.randint(0, 2 ** 31 - 1))
         desc.update(mats=[list(m.shape) for m in mats], skip=skip, n_samples=ns, indices_given=given)
-        cls = "given" if given else "drawn"
+        cls = ("given" if given else "drawn") + ("+" + idt if idt != "int64" else "")
         backends = ["core"]
         full = ref.khatri_rao(mats, None, skip, None)
 
@@ -262,6 +283,9 @@ def run_case(case, ctx):
     else:
         raise ValueError(fn)
 
+    if mix != "uniform" and n_built[0] > 1:
+        cls = cls + "+" + mix
+        ctx.count("mixed_dtype_operands")
     if nontrivial:
         ctx.nontriv(desc)
     ctx.sample({"case": desc, "class": cls}, limit=6)
